@@ -78,6 +78,30 @@ CLAIMED = {
         note=TB + "asyncio.Semaphore semantics (locked/acquire/release/_wake_up_next, hand-over at wake-up) are modelled from CPython 3.12.1 and validated by the traces; the order in which resumed tasks run is left to the adversary (the theorems hold for every order).",
         technique="Coq proof (LTS invariant by induction over label lists) + per-handle trace acceptance against the real Concurrency on a single-step event loop",
         ref='6/C13'),
+    'C11': dict(
+        text=("Proof (partial): for the big-step one-task semantics of nested timeout/ignore blocks (literal transcription of "
+              "_set/_unset_task_deadline and __aexit__), for ALL programs and states: the deadline stack is restored by every "
+              "fragment, the armed timer is always the minimum of the active deadlines, a block exit re-arms for the minimum "
+              "of the REMAINING deadlines, after a whole program nothing is armed and follow-on code cannot be cancelled by "
+              "an exited block; an un-interrupted block is transparent; an interruption happens exactly at max(min deadline, "
+              "now), never earlier, and does happen when the suspension outlasts it; two-level nesting with symbolic "
+              "deadlines: outer-first (inner sees TimeoutCancellationError, no expiry; outer reports), inner-first (TaskTimeout; "
+              "un-handled -> UncaughtTimeoutError outside; ignore form ends quietly), body-first (nothing reported). "
+              "Correspondence: random programs compiled to real coroutines on a virtual-time loop, per-block comparison."),
+        note=TB + "Partial: equal timer instants (asyncio heap order) are excluded and detected at run time; the event loop and Task.cancel semantics are those of CPython 3.12.1 as modelled by the three wake-up sources of `await`.",
+        technique="Coq proof (structural induction over programs, symbolic execution with lia for the nesting theorems) + vm_compute correspondence against aiorpcx.curio on a virtual clock",
+        ref='6/C11'),
+    'C12': dict(
+        text=("Proof (partial): for every program that does not itself catch CancelledError/TimeoutCancellationError, every "
+              "history of inner timeouts that expired and were caught or ignored, and every cancel instant: if the external "
+              "cancel was delivered, the outcome at top level is CancelledError (never TaskTimeout, TimeoutCancellationError "
+              "or UncaughtTimeoutError) and no timer stays armed - by induction over programs with the invariant 'the timeout "
+              "record is stale or a timer is due'. The property was FALSE on the original tree (F10, witness C12_f10): "
+              "repaired by a fix: commit; the theorem is about the repaired __aexit__. Correspondence search is driven from "
+              "the model's witness and its mutations. Task-group joins under cancellation are covered by C09/C10's check."),
+        note=TB + "Partial: one task, no task groups inside the blocks in this model; cancel instants coinciding with deadlines excluded (odd/even instants).",
+        technique="Coq proof (induction over programs with a stale-or-due invariant) + witness-driven vm_compute correspondence",
+        ref='6/C12'),
 }
 
 REASONS = {}
